@@ -18,6 +18,7 @@ def tasks(run):
     out += [('program', ('T_blocks', v, {})) for v in range(4)]                     # user constraint on the partition / an unused partition declared first
     out += [('program', ('T_linear', 3, {})), ('program', ('T_linear', 7, {}))]   # an operator class with ONE sample: its class LMI is all there is
     out += [('program', ('T_duplicates', v, {})) for v in range(2)]
+    out += [('program', ('T_inexact', v, {})) for v in (2, 5, 8, 11)]               # a function built by calling its class: the side constraints of its steps are sent
     out += [('program', ('T_scaled', v, {})) for v in range(2)]                     # rows with coefficients of order 1e3: sent as declared
     out += [('unused_function', (k + (run.seed % 21),)) for k in range(21 if run.tier != 'quick' else 7)]       # a declared, never evaluated function adds nothing          # an object registered twice is sent once per registration
     return out
